@@ -490,6 +490,8 @@ def contains(self, container, item):
         return False
     if isinstance(container, HList):
         container = tuple(container.items)
+    if isinstance(container, _LazyIter):
+        container = tuple(container.items)       # `x in generator`: membership in the (eagerly collected) items
     if isinstance(container, YSet):
         return self.yset_member(item, container)
     if isinstance(container, tuple) and has_seg(container):
@@ -637,7 +639,7 @@ def get_attr(self, obj, attr):
             return self.class_attr(obj.cls, attr)
         self.do_raise(AttributeError, (attr,), True, where=f"{obj.cls.__name__}.{attr}")
         return None
-    if isinstance(obj, (HList, HDict, SStr, SSet)) or (is_z3(obj) and z3.is_string(obj)):
+    if isinstance(obj, (HList, HDict, SStr, SSet, YSet)) or (is_z3(obj) and z3.is_string(obj)):
         return BoundBuiltin(obj, attr)
     if is_z3(obj):
         raise Unsupported(f"attribute {attr} on symbolic value")
@@ -930,7 +932,10 @@ def _comp(self, n, kind):
                     ok = False
                     break
                 if cv is not True:
-                    raise Unsupported("symbolic filter in comprehension")
+                    # symbolic filter: the path forks on it
+                    if not self.decide(cv, ("comp-if", _site(c), len(out))):
+                        ok = False
+                        break
             if ok:
                 rec(gi + 1)
     saved = dict(f.env)
